@@ -14,7 +14,9 @@ MANIFEST = dict(
          "mutex is held; lock order child -> parent only; every path releases; no Leak, no Unknown; two-phase shape of every exported method). "
          "Conc/LockSound.v, proved for ALL programs, worlds and schedules: disc_ok prog = true -> race freedom (no reachable configuration with two goroutines about to perform "
          "conflicting accesses; any two conflicting accesses in a trace are separated by Release(first) ... Acquire(second) on the object's mutex) and deadlock freedom "
-         "(every reachable configuration can step unless all calls returned). The serializability clause is proved up to the classical final step (see note). "
+         "(every reachable configuration can step unless all calls returned); lock_ok prog = true -> additionally two-phase locking along every execution and CONFLICT SERIALIZABILITY with an explicit serial order "
+         "(an access of one call before a conflicting access of another goroutine's call => the lock point of the first call precedes the lock point of the second). "
+         "Kept visible as an unproved Definition: the classical last step from an acyclic precedence graph to an equivalent serial execution, and data values (\"returns what a sequential order returns\"). "
          "Tie to /repo: tools/locks2coq (go/parser+go/ast only) regenerates gen/GenLocks.v from the current source on every run for ProtoForkChoice, PubkeyCache, CachedPubkey and the five pools; "
          "`lock_ok GenLocks.program = true` is re-proved by vm_compute; anything the translator cannot classify is an Unknown event, which fails the obligation. "
          "SUPPORTING runtime evidence (not a proof): -race stress of mixed calls on one shared instance per component with a per-call watchdog, and barrier-released bursts whose histories are "
@@ -69,7 +71,7 @@ def addvalidator_check_then_act(case, code):
 
 KNOWN_MATCH = {"addvalidator_check_then_act": addvalidator_check_then_act}
 
-_STR = re.compile(r'"((?:[^"]|"")*)"%string')
+_STR = re.compile(r'"((?:[^"]|"")*)"')
 
 
 def lock_obligations(ctx):
@@ -89,6 +91,9 @@ def lock_obligations(ctx):
     if rc != 0:
         return dict(obligations=3, discharged=0, problems=[dict(kind="translator", detail="locks2coq failed on the repository's working tree:\n" + out[-2000:])])
     ctx["coverage"]["translator"] = out.strip().splitlines()[-1] if out.strip() else ""
+    ctx["coverage"]["level_claimed"] = "proof, PARTIAL: theorem about the extracted lock discipline; event extraction, Go memory model and scheduler are trusted"
+    ctx["coverage"]["generated_checker_cmd"] = ("go build tools/locks2coq && locks2coq -repo %s -out gen/%s && coqc -Q coq V -Q gen/%s G GenLocks.v GenLocksCheck.v "
+                                                "(Lemma gen_disc_ok / gen_lock_ok: vm_compute. reflexivity.)" % (verif.REPO, _tag(), _tag()))
     gj = json.load(open(os.path.join(gen, "GenLocks.json")))
     ctx["coverage"]["translated_methods"] = {c["name"]: [m["name"] for m in c["methods"]] for c in gj["classes"]}
     ctx["coverage"]["translator_tables"] = gj["tables"]
@@ -104,7 +109,7 @@ def lock_obligations(ctx):
                 "Theorem gen_race_free_no_deadlock : forall w c0, wf_world w -> initial GenLocks.program w c0 ->\n"
                 "  race_free GenLocks.program w c0 /\\ no_thread_blocked_forever GenLocks.program w c0.\n"
                 "Proof. intros w c0. apply disc_ok_sound. exact gen_disc_ok. Qed.\n"
-                "Theorem gen_serializable : forall w c0, wf_world w -> initial GenLocks.program w c0 -> avoids known_not_atomic GenLocks.program w c0 ->\n"
+                "Theorem gen_serializable : forall w c0, wf_world w -> initial GenLocks.program w c0 -> avoids GenLocks.program w known_not_atomic c0 ->\n"
                 "  conflict_serializable GenLocks.program w c0.\n"
                 "Proof. intros w c0. apply lock_ok_sound_serializable. exact gen_lock_ok. Qed.\n"
                 "Print Assumptions gen_race_free_no_deadlock.\nPrint Assumptions gen_serializable.\n")
@@ -137,7 +142,7 @@ def lock_obligations(ctx):
         for l in lines:
             failed.append(l.split(" :: ")[0])
         detail = ("obligation lock_ok GenLocks.program = true fails on the program regenerated from %s:\n  " % verif.REPO +
-                  "\n  ".join(lines or ["(no report: " + (rep[-800:] or out[-800:]) + ")"]))
+                  "\n  ".join(lines or ["(the checker reports no failing method; coqc said: " + out[-1500:] + ")"]))
         problems.append(dict(kind="obligation", detail=detail, failed_methods=failed, obligation="gen_disc_ok / gen_lock_ok"))
     chk.targets = sorted(set(failed))
     return dict(obligations=obligations, discharged=discharged, problems=problems)
